@@ -14,6 +14,16 @@ use crate::d128::{_IDEC_flags, RoundingMode, StatusFlags};
 
 /// Returns x * 10^N
 pub (crate) fn bid128_scalbn(x: &BID_UINT128, n: i32, rnd_mode: RoundingMode, pfpsf: &mut _IDEC_flags) -> BID_UINT128 {
+    // The underflow packers learn whether *this* operation is inexact from the inexact bit of the status
+    // word they are handed, so they must not see bits left over from earlier operations: work on a clear
+    // word and merge it into the caller's.
+    let mut fpsf: _IDEC_flags = StatusFlags::BID_EXACT_STATUS;
+    let res: BID_UINT128 = bid128_scalbn_clear_status(x, n, rnd_mode, &mut fpsf);
+    *pfpsf |= fpsf;
+    res
+}
+
+fn bid128_scalbn_clear_status(x: &BID_UINT128, n: i32, rnd_mode: RoundingMode, pfpsf: &mut _IDEC_flags) -> BID_UINT128 {
     let mut CX: BID_UINT128 = Default::default();
     let mut CX2: BID_UINT128 = Default::default();
     let mut CBID_X8: BID_UINT128 = Default::default();
